@@ -55,9 +55,14 @@ impl Gs {
 }
 
 #[derive(Clone, Debug)]
-enum Ev { Add(Gs), Modify(Gs), Delete(Gs), Bookmark, Relist(Vec<Gs>) }
+enum Ev { Add(Gs), Modify(Gs), Delete(Gs), Bookmark, Relist(Vec<Gs>),
+    /// 410 Gone, then a paged re-list whose first page (these objects) arrives and whose second page fails;
+    /// the retried list returns the second component
+    RelistFail(Vec<Gs>, Vec<Gs>) }
 
-struct MockState { list: Vec<Gs>, rv: u64, watch_tx: Option<mpsc::UnboundedSender<String>>, lists_served: usize }
+struct MockState { list: Vec<Gs>, rv: u64, watch_tx: Option<mpsc::UnboundedSender<String>>, lists_served: usize,
+    /// first page to hand out (with a continue token) on the next list request; the continue request then fails once
+    page1: Option<Vec<Gs>>, failed_served: usize }
 
 async fn serve(listener: tokio::net::TcpListener, st: Arc<Mutex<MockState>>) {
     loop {
@@ -85,8 +90,18 @@ async fn serve(listener: tokio::net::TcpListener, st: Arc<Mutex<MockState>>) {
                         }
                         return;
                     }
+                    if target.contains("continue=") {
+                        // the second page of the interrupted list: fails
+                        st.lock().unwrap().failed_served += 1;
+                        let body = json!({"kind": "Status", "apiVersion": "v1", "status": "Failure", "message": "etcdserver: request timed out", "reason": "InternalError", "code": 500}).to_string();
+                        if sock.write_all(format!("HTTP/1.1 500 Internal Server Error\r\ncontent-type: application/json\r\ncontent-length: {}\r\n\r\n{}", body.len(), body).as_bytes()).await.is_err() { return; }
+                        continue;
+                    }
                     let body = { let mut s = st.lock().unwrap(); s.lists_served += 1; let rv = s.rv;
-                        json!({"apiVersion": "agones.dev/v1", "kind": "GameServerList", "metadata": {"resourceVersion": rv.to_string()}, "items": s.list.iter().map(|g| g.json(rv)).collect::<Vec<_>>()}).to_string() };
+                        match s.page1.take() {
+                            Some(p1) => json!({"apiVersion": "agones.dev/v1", "kind": "GameServerList", "metadata": {"resourceVersion": rv.to_string(), "continue": "page-2", "remainingItemCount": 1}, "items": p1.iter().map(|g| g.json(rv)).collect::<Vec<_>>()}).to_string(),
+                            None => json!({"apiVersion": "agones.dev/v1", "kind": "GameServerList", "metadata": {"resourceVersion": rv.to_string()}, "items": s.list.iter().map(|g| g.json(rv)).collect::<Vec<_>>()}).to_string(),
+                        } };
                     if sock.write_all(format!("HTTP/1.1 200 OK\r\ncontent-type: application/json\r\ncontent-length: {}\r\n\r\n{}", body.len(), body).as_bytes()).await.is_err() { return; }
                 }
             }
@@ -142,7 +157,7 @@ pub fn run(a: &Args) {
             for (g, ns, ad) in [(0usize, "blue", "10.0.0.1"), (1, "green", "10.0.0.2")] { initial[g].namespace = ns.into(); initial[g].address = ad.into(); initial[g].ports = vec![7000]; initial[g].state = "Ready".into(); initial[g].has_status = true; initial[g].labels.retain(|l| l.0 != "state"); }
         }
         let nev = if collision { 1 } else { rng.range(1, if a.thorough { 25 } else { 10 }) };
-        let with_relist = !collision && (a.thorough && n % 4 == 0 || n % 15 == 7);
+        let with_relist = !collision && (a.thorough && n % 4 == 0 || n % 6 == 3);
         let mut evs: Vec<Ev> = vec![];
         let mut live: Vec<String> = initial.iter().map(|g| g.name.clone()).collect();
         for i in 0..nev {
@@ -151,14 +166,19 @@ pub fn run(a: &Args) {
                 let mut l: Vec<Gs> = vec![];
                 for nm in &names { if rng.chance(1, 2) { l.push(gen_gs(&mut rng, nm)); } }
                 live = l.iter().map(|g| g.name.clone()).collect();
-                Ev::Relist(l)
+                if rng.chance(1, 2) {
+                    // the first page of the interrupted attempt holds objects that are gone (or different) by the retry
+                    let mut p1: Vec<Gs> = vec![];
+                    for nm in &names { if rng.chance(1, 2) { let mut g = gen_gs(&mut rng, nm); if rng.chance(2, 3) { g.state = "Ready".into(); g.has_status = true; g.address = "10.0.0.1".into(); g.ports = vec![7000]; g.labels.retain(|x| x.0 != "state"); } p1.push(g); } }
+                    Ev::RelistFail(p1, l)
+                } else { Ev::Relist(l) }
             } else if live.iter().any(|x| x == nm) {
                 match rng.below(5) { 0 | 1 => { live.retain(|x| x != nm); Ev::Delete(gen_gs(&mut rng, nm)) } 2 => Ev::Bookmark, _ => Ev::Modify(gen_gs(&mut rng, nm)) }
             } else { live.push(nm.to_string()); Ev::Add(gen_gs(&mut rng, nm)) };
             evs.push(ev);
         }
         if collision { evs = vec![Ev::Bookmark]; }
-        let st = Arc::new(Mutex::new(MockState { list: initial.clone(), rv: 100, watch_tx: None, lists_served: 0 }));
+        let st = Arc::new(Mutex::new(MockState { list: initial.clone(), rv: 100, watch_tx: None, lists_served: 0, page1: None, failed_served: 0 }));
         let kubeconfig = dir.join(format!("kc-{n}.yaml"));
         let (observed, model_evs, oracle) = rt.block_on(async {
             let listener = tokio::net::TcpListener::bind("127.0.0.1:0").await.unwrap();
@@ -199,6 +219,38 @@ pub fn run(a: &Args) {
                     Ev::Modify(g) => { what = format!("MODIFIED {} -> {}", g.name, g.state); send(json!({"type": "MODIFIED", "object": g.json(rv)}).to_string()); model.push(format!("ap:{}", g.tok())); store.insert((g.namespace.clone(), g.name.clone()), g.clone()); }
                     Ev::Delete(g) => { what = format!("DELETED {}", g.name); send(json!({"type": "DELETED", "object": g.json(rv)}).to_string()); model.push(format!("de:{}", g.tok())); store.remove(&(g.namespace.clone(), g.name.clone())); }
                     Ev::Bookmark => { what = "BOOKMARK".into(); send(json!({"type": "BOOKMARK", "object": {"apiVersion": "agones.dev/v1", "kind": "GameServer", "metadata": {"resourceVersion": rv.to_string()}}}).to_string()); }
+                    Ev::RelistFail(p1, l) => {
+                        what = "410 Gone + re-list interrupted after its first page + retried re-list".into();
+                        sentinel += 1;
+                        let s = Gs { name: format!("sentinel-{sentinel}"), address: "127.0.0.9".into(), ports: vec![9], state: "Ready".into(), counters: None, lists: None, labels: vec![], annotations: vec![], has_status: true, namespace: "default".into() };
+                        let mut l2 = l.clone(); l2.push(s.clone());
+                        let failed_before = st.lock().unwrap().failed_served;
+                        let old_tx = { let mut m = st.lock().unwrap(); m.list = l2.clone(); m.page1 = Some(p1.clone()); m.watch_tx.take() };
+                        if let Some(tx) = old_tx {
+                            let _ = tx.send(json!({"type": "ERROR", "object": {"kind": "Status", "apiVersion": "v1", "status": "Failure", "message": "too old resource version", "reason": "Expired", "code": 410}}).to_string());
+                            let _ = tx.send("<close>".to_string());
+                        }
+                        // first attempt: Init, the first page, then the failure — nothing may change for callers of discover()
+                        model.push("init".into());
+                        for g in p1 { model.push(format!("ia:{}", g.tok())); }
+                        let t1 = tokio::time::Instant::now();
+                        while st.lock().unwrap().failed_served == failed_before && t1.elapsed() < Duration::from_secs(8) { tokio::time::sleep(Duration::from_millis(5)).await; }
+                        tokio::time::sleep(Duration::from_millis(150)).await;
+                        let mid = adapter.discover().await.unwrap();
+                        model.push("S".into());
+                        check(&mut snaps, &store, Some(mid), &mut why, "the first page of a re-list that then failed (the previous complete state still stands)");
+                        // the retry
+                        model.push("init".into()); store.clear();
+                        for g in &l2 { model.push(format!("ia:{}", g.tok())); store.insert((g.namespace.clone(), g.name.clone()), g.clone()); }
+                        model.push("done".into());
+                        let want = format!("sentinel-{sentinel}");
+                        let ts = wait_for(&adapter, |ts| ts.iter().any(|t| t.identifier == want), 12000).await;
+                        let t1 = tokio::time::Instant::now();
+                        while st.lock().unwrap().watch_tx.is_none() && t1.elapsed() < Duration::from_secs(5) { tokio::time::sleep(Duration::from_millis(5)).await; }
+                        model.push("S".into());
+                        check(&mut snaps, &store, ts, &mut why, &what);
+                        continue;
+                    }
                     Ev::Relist(l) => {
                         what = "410 Gone + re-list".into();
                         sentinel += 1;
@@ -242,7 +294,7 @@ pub fn run(a: &Args) {
         // ip oracle tokens
         let mut ips: Vec<String> = vec![];
         for tok in ["", "not-an-ip", "10.0.0.256", "10.0.0.1", "10.0.0.2", "10.1.2.3", "2001:db8::5", "::1", "127.0.0.9"] { ips.push(format!("ip={}:{}", hex(tok.as_bytes()), tok.parse::<IpAddr>().map_or("-".to_string(), |i| hex(i.to_string().as_bytes())))); }
-        let class = if collision { "finding:namespace-collision".to_string() } else { format!("{}:{}", if evs.iter().any(|e| matches!(e, Ev::Relist(_))) { "relist" } else { "watch" }, if evs.iter().any(|e| matches!(e, Ev::Delete(_))) { "with-delete" } else { "no-delete" }) };
+        let class = if collision { "finding:namespace-collision".to_string() } else { format!("{}:{}", if evs.iter().any(|e| matches!(e, Ev::RelistFail(..))) { "relist-interrupted" } else if evs.iter().any(|e| matches!(e, Ev::Relist(_))) { "relist" } else { "watch" }, if evs.iter().any(|e| matches!(e, Ev::Delete(_))) { "with-delete" } else { "no-delete" }) };
         cases.push(Case { request: format!("c20.run {} | {}", ips.join(" "), model_evs.join(" ")), observed, oracle: if oracle.is_empty() { None } else { Some(oracle.join("; ")) }, class });
     }
     let _ = std::fs::remove_dir_all(&dir);
